@@ -219,7 +219,20 @@ def extract_pipeline(model, modname, fnname):
     param = fn.args.args[0].arg
     pipe = Pipeline(fn, param)
     cur = param
+    pipe.fast = []
     for st in body_wo_doc(fn):
+        # fast path: `if RE.match(v): return '<pre>%s<post>' % v`  (the text is emitted raw when the regex matches)
+        if isinstance(st, ast.If) and not st.orelse and len(st.body) == 1 and isinstance(st.body[0], ast.Return) \
+                and isinstance(st.test, ast.Call) and isinstance(st.test.func, ast.Attribute) \
+                and st.test.func.attr in ('match', 'fullmatch', 'search') and len(st.test.args) == 1 \
+                and norm(st.test.args[0]) == cur and cur == param:
+            rc = model.fold(modname, st.test.func.value)
+            v = st.body[0].value
+            if isinstance(rc, RegexConst) and isinstance(v, ast.BinOp) and isinstance(v.op, ast.Mod) \
+                    and norm(v.right) in (cur, '(%s,)' % cur) and isinstance(model.fold(modname, v.left), str):
+                pipe.fast.append((rc, st.test.func.attr, model.fold(modname, v.left), st))
+                continue
+            raise Unsupported('%s: guarded early return %r' % (fnname, norm(st).split('\n')[0]))
         # v = RE.sub(fn, v)
         if isinstance(st, ast.Assign) and len(st.targets) == 1 and isinstance(st.targets[0], ast.Name) \
                 and isinstance(st.value, ast.Call) and isinstance(st.value.func, ast.Attribute) \
